@@ -352,7 +352,19 @@ func runC16(c *core.Ctx) {
 				continue
 			}
 			n++
-			path, reached := core.Reach(fn, nil, func(in ssa.Instruction) bool { return in == ssa.Instruction(ci) }, permitted, nil)
+			// asked as: assuming the flag is false, can the entry be reached without passing an edge that bounds the
+			// remaining path? (the assumption makes every edge contradictory that implies the flag true - also through a
+			// named condition such as parentMissing := p.Len() > 1 && !createParents)
+			assume := map[ssa.Value]bool{}
+			core.InstrsR(fn, func(in ssa.Instruction) {
+				if v, ok := in.(ssa.Value); ok && isFlag(v) {
+					assume[v] = false
+				}
+			})
+			for fp := range flagParams {
+				assume[fp] = false
+			}
+			path, reached := core.ReachAssuming(fn, nil, func(in ssa.Instruction) bool { return in == ssa.Instruction(ci) }, permitted, nil, assume)
 			c.Check(!reached, fmt.Sprintf("%s.%s#create-mode-entry/%d#only-when-permitted", rel, tf.label, n), p.Pos(ci.Pos()), "create mode is entered only with the flag set or at the last step", "the focused transform hands a nil node down (create mode) on a path on which the create-parents flag was not found true and the remaining path was not found to end here: missing parents are created although the caller did not ask for it", p.Witness(path)...)
 		}
 		nCreate += n
